@@ -42,7 +42,7 @@ type Prog struct {
 	nn           *NN
 	alias        map[*ssa.Function]string // renamed functions -> the name they had on the pinned tree
 	Renamed      []string
-	permCache map[*ssa.Function][]int
+	permCache    map[*ssa.Function][]int
 }
 
 type LoadConfig struct {
